@@ -460,6 +460,7 @@ def _acl(unit, ctx):
                     kw = dict(platform=plat, indent=indent)
                     if group_by:
                         kw["group_by"] = group_by
+                        kw["version"] = "15.2(4)M"  # blocks must keep the ACL's name table
                     _acl_fix("Acl", text, kw, ctx)
                 else:
                     if indent != "  ":
